@@ -105,15 +105,29 @@ def step(t, op, backing):
     if kind == "batch":
         ops, ab = op[1], op[2]
         outs = []
-        try:
+        # the block is left by an ordinary exception, or (for odd abort positions) by one that is not an `Exception`
+        # subclass, or by GeneratorExit when the block lives in a generator that is closed early
+        how = None if ab is None else ("exception", "base", "exception", "genexit")[min(ab, len(ops)) % 4]
+
+        def block():
             with t.squash_changes() as b:
                 for i, o in enumerate(ops):
                     if ab is not None and i == ab:
-                        raise C.Abort()
+                        if how == "genexit":
+                            yield
+                        raise C.AbortBase() if how == "base" else C.Abort()
                     outs.append(step(b, o, backing))
                 if ab is not None:
-                    raise C.Abort()
-        except C.Abort as e:
+                    if how == "genexit":
+                        yield
+                    raise C.AbortBase() if how == "base" else C.Abort()
+            yield "done"
+        try:
+            g = block()
+            if next(g) != "done":
+                g.close()          # GeneratorExit is thrown into the with-block
+                return [outs, exc_obs(C.Abort())]
+        except (C.Abort, C.AbortBase) as e:
             return [outs, exc_obs(e)]
         except Exception as e:  # failure during commit
             return [outs, exc_obs(e)]
